@@ -319,6 +319,47 @@ func hostileWorkload(r *mon.Run, run func(hostileCase) (consumedIfAllRejected in
 			}
 		}
 	}
+	// (d4) layered projects: two types per layer, each referring to both types of the next layer, in every reference
+	// form - the work must grow with the number of types, not with the number of routes (2^layers)
+	{
+		forms := []struct {
+			name string
+			mk   func(a, b string) string
+		}{
+			{"choice shortcut", func(a, b string) string { return a + " | " + b }},
+			{"or list", func(a, b string) string { return `1 // {or: ["` + a + `", "` + b + `"]}` }},
+			{"or rule-sets", func(a, b string) string { return `1 // {or: [{type: "` + a + `"}, {type: "` + b + `", nullable: true}]}` }},
+			{"choice in an optional member", func(a, b string) string { return `{"k": ` + a + ` | ` + b + ` // {optional: true}` + "\n}" }},
+			{"array of a choice", func(a, b string) string { return `[` + a + ` | ` + b + `]` }},
+			{"additionalProperties + key shortcut", func(a, b string) string { return `{} // {additionalProperties: "` + a + `"}` }},
+			{"allOf list", func(a, b string) string { return "{ // {allOf: [\"" + a + "\"]}\n}" }},
+		}
+		fi := 0
+		for _, f := range forms {
+			for _, layers := range []int{6, 16, 28, 40, 64} {
+				if r.Mine(fi) {
+					leaf := "1"
+					if strings.HasPrefix(f.name, "choice in") || strings.HasPrefix(f.name, "additional") || strings.HasPrefix(f.name, "allOf") {
+						leaf = "{}"
+					}
+					if strings.HasPrefix(f.name, "array") {
+						leaf = "[]"
+					}
+					name := func(p string, i int) string { return fmt.Sprintf("@%s%d", p, i) }
+					p := project{Root: f.mk(name("a", 0), name("b", 0))}
+					for i := 0; i < layers; i++ {
+						text := leaf
+						if i+1 < layers {
+							text = f.mk(name("a", i+1), name("b", i+1))
+						}
+						p.Types = append(p.Types, typeDef{Name: name("a", i), Text: text}, typeDef{Name: name("b", i), Text: text})
+					}
+					run(hostileCase{Kind: "project", Project: &p, Source: fmt.Sprintf("layered project, %d layers, %s", layers, f.name)})
+				}
+				fi++
+			}
+		}
+	}
 	// (f) numbers with exponents at the machine-word boundaries
 	if r.Shard == 1 {
 		for _, e := range []string{"2147483647", "2147483648", "4294967295", "4294967296", "9223372036854775806", "9223372036854775807", "9223372036854775808",
@@ -475,7 +516,7 @@ func init() {
 		ID:                 "C02",
 		Run:                func(r *mon.Run) { hostileRun(r, c02Judge(r)) },
 		Replay:             hostileReplay(c02Judge),
-		Rule:               "hostile inputs to every public entry point (JSchema Len/Check/Example/GetAST/UsedUserTypes/AddType/AddRule, Enum Len/Check/Values/GetAST, RSchema Check/Len/Example/GetAST/Pattern/AddType, Document Check/Len/NextLexeme in both modes, NewNumber, GuessSchemaType, OpenAPI conversion of accepted schemas), each call on fresh objects under a recover: (a) every token string up to a length bound per family (schema 34 tokens, len 3 quick / 5 thorough, with viable-prefix pruning from the H3 scanner probe; enum, regex, number, document alphabets; every number-shaped byte string over 0 1 - + . e x up to 5 / 6 hosted in an enum rule, a schema value, a rule value and a document; annotation bodies: 19 compound tokens (incl. the empty string) up to 5 / 6 inside `1 /* … */` and after `1 // `), (b) every truncation, token deletion/duplication/substitution and CRLF/CR variant of every string literal harvested from the repository's tests, (c) random byte and token soups up to 9 KiB, (d) all 1-type (and, thorough, 2-type; sampled 2/3-type) projects of self/mutually referencing user types from 18 reference templates, (d') 81 x 4 projects with a check-time defect inside a member that other types inherit through allOf or reach by reference (heir named before and after the base, member behind padding lines), (d2) C07's exhaustive small allOf / additionalProperties graphs and 1.6k / 40k random ones, (d3) texts whose first or second line is 100 B .. 70 KB long with a defect on a later line under LF / CRLF / CR, (e) nesting ladder up to 2000 (quick) / 10000 (thorough). A violation is an escaped panic, a worker death or CPU-budget overrun that reproduces in a fresh process, or a scan using more than 2*len+8 steps. distinct_nontrivial = distinct (entry family, text) / projects (hashed).",
+		Rule:               "hostile inputs to every public entry point (JSchema Len/Check/Example/GetAST/UsedUserTypes/AddType/AddRule, Enum Len/Check/Values/GetAST, RSchema Check/Len/Example/GetAST/Pattern/AddType, Document Check/Len/NextLexeme in both modes, NewNumber, GuessSchemaType, OpenAPI conversion of accepted schemas), each call on fresh objects under a recover: (a) every token string up to a length bound per family (schema 34 tokens, len 3 quick / 5 thorough, with viable-prefix pruning from the H3 scanner probe; enum, regex, number, document alphabets; every number-shaped byte string over 0 1 - + . e x up to 5 / 6 hosted in an enum rule, a schema value, a rule value and a document; annotation bodies: 19 compound tokens (incl. the empty string) up to 5 / 6 inside `1 /* … */` and after `1 // `), (b) every truncation, token deletion/duplication/substitution and CRLF/CR variant of every string literal harvested from the repository's tests, (c) random byte and token soups up to 9 KiB, (d) all 1-type (and, thorough, 2-type; sampled 2/3-type) projects of self/mutually referencing user types from 18 reference templates, (d') 81 x 4 projects with a check-time defect inside a member that other types inherit through allOf or reach by reference (heir named before and after the base, member behind padding lines), (d2) C07's exhaustive small allOf / additionalProperties graphs and 1.6k / 40k random ones, (d3) texts whose first or second line is 100 B .. 70 KB long with a defect on a later line under LF / CRLF / CR, (d4) layered projects of 6..64 layers with two types per layer in seven reference forms (work must not grow with the number of routes), (e) nesting ladder up to 2000 (quick) / 10000 (thorough). A violation is an escaped panic, a worker death or CPU-budget overrun that reproduces in a fresh process, or a scan using more than 2*len+8 steps. distinct_nontrivial = distinct (entry family, text) / projects (hashed).",
 		MinNontrivialQuick: 100000, MinNontrivialThorough: 1000000,
 		Assumptions: []string{"inputs up to 64 KiB and nesting up to 10^4 (deeper nesting costs tens of CPU-seconds per call on this tree: slow, but it returns); exponents above 10^6 are rejected by the library since the fix recorded in known_findings.jsonl", "OpenAPI conversion is only exercised for accepted schemas",
 			"a process death counts only if it reproduces on the same case in a fresh process; CPU budget 300 s per case (process CPU time, not wall clock)"},
